@@ -369,10 +369,32 @@ def run(ctx, R):
     if len(lb) != 1:
         raise AnchorLost("compile::lower_bound_of_target_clause: %s" % lb)
     lh = F.hir(lb[0])
-    ifs = [n for n in walk(lh["body"]) if n["k"] == "If" and any(y["k"] == "Field" and y["name"] == "clause_assert_margin" for y in walk(n["cond"]))]
-    if not ifs:
-        raise AnchorLost("lower_bound_of_target_clause: test against clause_assert_margin")
-    R.ob("C09:lower-bound:asserta-hit-belongs-to-the-block", any(any(y["k"] == "MethodCall" and y["name"] == "switch_on_term_loc" for y in walk(n["cond"])) for n in ifs),
-         "lower_bound_of_target_clause accepts any search result below the asserta margin as the first clause of the block; when the block lies among the assertz'd clauses "
-         "the search stops at 0 and the new clause is merged into the predicate's first block: asserta(q(_,1)), asserta(q(f(_),2)), assertz(q(c,3)), assertz(q(d,4)) "
-         "enumerates [2,4,1,3]", F.where(lb[0]))
+    # membership in the block = "names the block's indexing instruction": the search must decide by that, per candidate
+    # clause — either inside the search predicate (closure handed to partition_point / a loop condition) or by validating
+    # a hit found by address comparison. A search that only compares clause addresses with the instruction's address
+    # fails for blocks that span the asserta'd and the assertz'd region of the skeleton.
+    by_membership = False
+    for n in walk(lh["body"]):
+        if n["k"] == "Closure" and any(y["k"] == "MethodCall" and y["name"] == "switch_on_term_loc" for y in walk(n["body"])):
+            by_membership = True
+        if n["k"] == "Loop" and any(y["k"] == "MethodCall" and y["name"] == "switch_on_term_loc" for y in walk(n.get("body") or {})) \
+                and any(y["k"] == "Index" for y in walk(n.get("body") or {})):
+            # a walk over candidates `skeleton.clauses[i].…switch_on_term_loc() == Some(index_loc)`
+            by_membership = by_membership or _candidate_test(n)
+        # (validating the hit of an address search afterwards is not enough: the address search itself misses blocks
+        # that span both regions)
+    R.ob("C09:lower-bound:first-clause-of-block-found-by-membership", by_membership,
+         "lower_bound_of_target_clause looks for the first clause of an indexed block by comparing clause addresses with the address of the block's indexing instruction only: "
+         "for a block among the assertz'd clauses the search among the asserta'd ones stops at 0 (asserta(q(_,1)), asserta(q(f(_),2)), assertz(q(c,3)), assertz(q(d,4)) "
+         "enumerates [2,4,1,3]), and a block that spans both regions loses its first clauses (assertz(p(1.5,1)), assertz(p([x,y],2)), asserta(p(f(1),4)), assertz(p(f(1),5)): "
+         "p(f(1),N) gives only 5)", F.where(lb[0]))
+
+
+def _candidate_test(n):
+    """the condition compares the indexing location of an *indexed candidate* (clauses[expr]) — not of the fixed previous
+    clause — with the block's location"""
+    cond = n.get("cond") or n.get("body") or {}
+    for y in walk(cond):
+        if y["k"] == "Binary" and y["op"] in ("Eq", "Ne") and any(z["k"] == "MethodCall" and z["name"] == "switch_on_term_loc" for z in walk(y)):
+            return True
+    return False
